@@ -372,7 +372,7 @@ class CFile:
         return res
 
 
-def extract_statement(text, fname, anchor, nth=None, nstmts=1):
+def extract_statement(text, fname, anchor, nth=None, nstmts=1, skip=0):
     """Return the verbatim text of the complete statement of function fname that
     starts at the unique occurrence of `anchor` (an if/for/while header or a
     simple statement): through the matching '}' of its block, or through the ';'
@@ -396,6 +396,10 @@ def extract_statement(text, fname, anchor, nth=None, nstmts=1):
         start = lo + pos
     # token index at start
     ti = next(i for i, t in enumerate(cf.toks) if t[1] >= start)
+    if skip:
+        # the statement starts `skip` tokens after the anchor (e.g. the block after a case label)
+        ti += skip
+        start = cf.toks[ti][1]
 
     def stmt_end(i):
         t = cf.toks[i]
